@@ -102,3 +102,17 @@ Definition x_native_caret := Shorthand.native_caret.
 Definition x_native_same_minor := Shorthand.native_same_minor.
 Definition x_native_same_major := Shorthand.native_same_major.
 Definition x_native_nginx_plus := Shorthand.native_nginx_plus.
+
+(* gem helpers (C18): canonical segments of bump() and release() as dotted text *)
+From UV.Schemes Require Gem GemHelpers.
+From UV.Ref Require Gem.
+Definition seg_text (x : UV.Ref.Gem.seg) : str := match x with UV.Ref.Gem.SNum n => str_of_N n | UV.Ref.Gem.SStr t => t end.
+Definition segs_text (l : list UV.Ref.Gem.seg) : str := join_c "."%char (map seg_text l).
+Definition x_gem_helpers (t : str) : res (str * str * str) :=
+  match UV.Schemes.Gem.gem_ctor t with
+  | Ok v => let sg := UV.Schemes.Gem.segs v in
+            Ok (segs_text (UV.Ref.Gem.drop_trailing_zeros (GemHelpers.bump_list sg)),
+                segs_text (UV.Ref.Gem.drop_trailing_zeros (GemHelpers.release_list sg)),
+                segs_text (GemHelpers.canon_of sg))
+  | Err e => Err e
+  end.
